@@ -36,7 +36,10 @@ func (c *Encoder) Encodes(statements []ast.Statement) ([]byte, error) {
 		buf.Write(frame.Encode())
 	}
 	buf.Write(fin())
-	return buf.Bytes(), nil
+	// The buffer is put back to the pool and reused by the following call, returns copy of its bytes
+	encoded := make([]byte, buf.Len())
+	copy(encoded, buf.Bytes())
+	return encoded, nil
 }
 
 func (c *Encoder) Encode(stmt ast.Statement) ([]byte, error) {
